@@ -190,6 +190,44 @@ pub fn run(ctx: &mut Ctx) {
     }
     ctx.rec.note("patterns", &patterns.to_string());
     ctx.rec.checkpoint();
+    // guards that fail only AFTER operands were taken: LIST.SET / LIST.ADD whose id vector names the CODE stack
+    // itself (several times), so that the addressed position no longer exists once the members are loaded -
+    // the instruction must then push and replace nothing (judged by the frame table and the reference)
+    let nlate = if ctx.is_fuzz() { 40 } else { ctx.n(4000, 60000) };
+    for k in 0..nlate as u64 {
+        case += 1;
+        if !ctx.mine(case) {
+            continue;
+        }
+        let mut r = Rng::derive(ctx.seed, &[10, 55, k]);
+        let mut s = gen::snap(&mut r, &StateOpts { vals: Vals::Small, max_depth: 3, graphs: false, io: false, bindings: k % 3 == 0, flags: k % 5 == 0, random_cfg: false }, &names);
+        let io = gen::ItemOpts::all(Vals::Small);
+        let depth = r.below(6) as usize;
+        s.c = (0..depth).map(|_| gen::item(&mut r, 2, &io, &names)).collect();
+        // id vector: 1..6 ids, the CODE id (3) with high probability, sometimes more often than CODE is deep
+        let nids = 1 + r.below(6) as usize;
+        let ids: Vec<i32> = (0..nids).map(|_| if r.below(3) != 0 { 3 } else { *r.pick(&[1, 2, 4, 5, 6, 7, 8, 9, 10, 11, 12, 0, 13, -3]) }).collect();
+        s.iv.insert(0, ids.clone());
+        let name = if k % 4 == 3 { "LIST.ADD" } else { "LIST.SET" };
+        if name == "LIST.SET" {
+            // positions: mostly the bottom part of the stack (the part that disappears), also beyond / negative
+            let pos = match r.below(5) {
+                0 => -1,
+                1 => depth as i32 + r.below(3) as i32,
+                2 => r.below(depth.max(1)) as i32,
+                _ => depth as i32 - 1 - r.below(depth.max(1).min(3)) as i32,
+            };
+            s.i.insert(0, pos);
+        }
+        let mut st = build_state(&s);
+        ctx.rec.case_marker(case, name);
+        let ev = judged_step("C10", name, &mut st, &mut is, &cache, &mut ctx.rec, Judge { frame: true, reference: true }, &format!("late guard: ids {:?}, CODE depth {}", ids, depth));
+        ctx.rec.count("steps", 1);
+        ctx.rec.count("late_guard_steps", 1);
+        let n3 = ids.iter().filter(|x| **x == 3).count();
+        ctx.rec.cover(&format!("{}|late|d{}|n3={}|{:?}", name, depth, n3.min(4), ev.fired));
+    }
+    ctx.rec.checkpoint();
     // every instruction inside the interpreter's own control structures (continuation items on EXEC,
     // loop indices on INDEX): the frame table holds there too
     if !ctx.is_fuzz() || ctx.fuzz.map(|k| k % 4 == 0).unwrap_or(false) {
